@@ -1,7 +1,7 @@
 //! Leg A for the state animator: replay spec-generated histories (REPLAY lines of MC_Animator)
 //! on a real StateAnimatorBuilder animator and compare every observation after every call.
 use crate::common::*;
-use crate::tl::{build_tl, config_tl, scale, Tally, SUBMICRO, TENTH};
+use crate::tl::{build_tl, config_tl, config_tl_var, distinct_positions, scale, Tally, Variant, SUBMICRO, TENTH};
 use mina::prelude::*;
 use serde_json::{json, Value};
 use std::panic::{catch_unwind, AssertUnwindSafe};
@@ -32,7 +32,8 @@ pub fn build_anim_order(line: &Value, s: i64, on_first: bool) -> Anim {
         if comps.is_empty() { continue; }
         // `on` accepts a built timeline, an un-built builder or a merged timeline (TimelineOrBuilder): use all three
         if comps.len() == 1 && (i + s.unsigned_abs() as usize) % 2 == 0 { b = b.on(st(i as i64 + 1), config_tl(&comps[0], pd, &pmap, s)); continue; }
-        let tls: Vec<P4Timeline> = comps.iter().map(|c| build_tl(c, pd, &pmap, s)).collect();
+        // the other builder order also adds the keyframes in a rotated order (no effect when the positions are distinct)
+        let tls: Vec<P4Timeline> = comps.iter().map(|c| if on_first && distinct_positions(c) { config_tl_var(c, pd, &pmap, s, Variant { rot: 1 + i, ..Variant::default() }).build() } else { build_tl(c, pd, &pmap, s) }).collect();
         b = if tls.len() == 1 { b.on(st(i as i64 + 1), tls.into_iter().next().unwrap()) } else { b.on(st(i as i64 + 1), MergedTimeline::of(tls)) };
     }
     if on_first { b = b.from_values(init).from_state(st(line["s0"].as_i64().unwrap())); }
